@@ -239,6 +239,21 @@ def o_finite_feasible(case, res, rep, rng):
                     case=case.describe(), impl_output=np.asarray(w).tolist())
 
 
+def null_block_check(case, w, stop, tol, rep, rng):
+    """blocks whose columns are all zero carry no curvature and are skipped by the fixed-point score: first-order
+    optimality there is a statement about the penalty alone"""
+    _, dsub = case.cert(w, rng)
+    blocks = case.groups if case.family == "group" else [[j] for j in range(case.X.shape[1])]
+    for k_, idx in enumerate(blocks):
+        if not np.any(case.X[:, idx]) and k_ < len(dsub) and dsub[k_] > tol * (1 + 1e-5) + 1e-9:
+            rep.violate("stop_crit <= tol was returned (fixed-point strategy) while the coefficients of an all-zero "
+                        "block are not stationary for the penalty",
+                        dict(case.signature(site=f"{case.solver}.solve"), kind="certificate-null-block"),
+                        case=case.describe(), impl_output=dict(w=np.asarray(w).tolist(), stop_crit=float(stop)),
+                        oracle=dict(block=k_, subdiff_distance=float(dsub[k_]), tol=tol))
+            return
+
+
 def o_cert(case, res, rep, rng):
     out = res["out"]
     if out is None:
@@ -257,6 +272,8 @@ def o_cert(case, res, rep, rng):
         if v is not None:
             ww, _ = case.split(w)
             slack = 1e-6 * (1 + float(np.max(np.abs(case.X))) * (1 + (float(np.max(np.abs(ww))) if ww.size else 0)))
+            if stop <= tol:
+                null_block_check(case, w, stop, tol, rep, rng)
             if case.solver != "ProxNewton":
                 if stop <= tol and not v <= tol * (1 + 1e-5) + slack:
                     rep.violate("stop_crit <= tol was returned (fixed-point strategy) but the fixed-point residual recomputed "
@@ -467,6 +484,17 @@ def _gen_bb(rng, solver, degenerate=False, warm=None):
                 w_init[:p] = np.abs(w_init[:p])
             if pen.kind == "box":
                 w_init[:p] = np.minimum(w_init[:p], pen.alpha)
+        if solver == "ProxNewton" and dk in ("poisson", "gamma", "logistic") and rng.random() < 0.12:
+            # a start so far out that exp() saturates: the Hessian weights underflow to exactly 0
+            w_init = np.zeros(p + fi)
+            # ... on the side where the loss itself stays representable (exp(800) is not a double)
+            sgn = -1.0 if dk == "poisson" else 1.0 if dk == "gamma" else rng.choice([-1.0, 1.0])
+            jbig = int(np.argmax(np.abs(X).sum(axis=0)))
+            if fi:
+                w_init[-1] = 800.0 * sgn
+            elif np.all(X[:, jbig] >= 0) or dk == "logistic":
+                w_init[jbig] = 800.0 * sgn
+            mode = "pn-saturated"
         if solver == "GramCD" and dk == "quadratic" and sparse:
             pass
         return BBCase(solver, "sep", df, pen, X, y, knobs, sw=sw, wts=wts, sparse=sparse, w_init=w_init, label=mode)
